@@ -419,6 +419,143 @@ def md045(d, cfg):
     return must, silent
 
 
+# ------------------------------------------------------------------------------- more heading / list rules
+def _heading_style(d, h):
+    if not h.markup.startswith("#"):
+        return "setext"
+    ln = d.lines[h.map[0]]
+    body = ln.strip()
+    if re.search(r"(?<!\\)[ \t]#+$", body) and body.strip("#").strip():
+        return "atx_closed"
+    if body.strip("#").strip() == "":
+        return None  # empty heading: its style is undecided
+    return "atx"
+
+
+def md003(d, cfg):
+    style = cfg.get("style", "consistent")
+    if style not in ("consistent", "atx", "atx_closed", "setext") or any(h.level != 0 for h in d.headings):
+        return [], _all(d)
+    must, silent = [], set()
+    want = None if style == "consistent" else style
+    for h in d.headings:
+        rng = set(range(h.map[0] + 1, h.map[1] + 1))
+        st = _heading_style(d, h)
+        if st is None or "\t" in d.lines[h.map[0]]:
+            silent.update(rng)
+            continue
+        if want is None:
+            want = st
+            continue
+        if st != want:
+            if want == "setext" and int(h.tag[1]) > 2:
+                silent.update(rng)  # setext cannot express levels 3+: see allow-setext-update, not judged
+            else:
+                must.append(rng)
+                silent.update(rng)
+    return must, silent
+
+
+def md024(d, cfg):
+    if any(h.level != 0 for h in d.headings):
+        return [], _all(d)
+    must, silent = [], set()
+    seen = set()
+    fuzzy = set()
+    for h in d.headings:
+        rng = set(range(h.map[0] + 1, h.map[1] + 1))
+        inl = d.inline_after(h)
+        text = inl.content if inl is not None else ""
+        raw = d.lines[h.map[0]]
+        plain = (re.match(r"^#{1,6} \S(.*\S)?$", raw) is not None and not raw.endswith("#")) if h.markup.startswith("#") else all(
+            ln == ln.strip() for ln in d.lines[h.map[0] : h.map[1] - 1])
+        if text == "" or "\\" in text or "&" in text or not plain:
+            # "a strict comparison is performed": only headings written without extra spacing / closing hashes are judged
+            silent.update(rng)
+            fuzzy.add(text)
+            continue
+        if text in fuzzy:
+            silent.update(rng)  # duplicates of a heading that was not judged are not judged either
+        elif text in seen:
+            must.append(rng)
+            silent.update(rng)
+        seen.add(text)
+    return must, silent
+
+
+def _top_blocks(d):
+    return [t for t in d.toks if t.level == 0 and t.map is not None and t.nesting >= 0]
+
+
+def md022(d, cfg):
+    above_n = cfg.get("lines_above", 1)
+    below_n = cfg.get("lines_below", 1)
+    must, silent = [], set()
+    tops = _top_blocks(d)
+    for h in d.headings:
+        rng = set(range(h.map[0] + 1, h.map[1] + 1))
+        if h.level != 0:
+            silent.update(rng)
+            continue
+        i = tops.index(h)
+        prev = tops[i - 1] if i > 0 else None
+        nxt = tops[i + 1] if i + 1 < len(tops) else None
+        a, b = h.map
+        bad = False
+        undecided = False
+        if prev is None:
+            if a != 0:
+                undecided = True  # something invisible (a link reference definition) precedes it
+        elif prev.type in ("bullet_list_open", "ordered_list_open", "blockquote_open", "html_block"):
+            undecided = True
+        else:
+            k = 0
+            while a - 1 - k >= 0 and d.lines[a - 1 - k].strip(" \t") == "":
+                k += 1
+            if k != above_n:
+                bad = True
+        if nxt is None:
+            undecided = True if not bad else undecided  # end of document: not described
+        elif nxt.type in ("bullet_list_open", "ordered_list_open", "blockquote_open", "html_block"):
+            undecided = True if not bad else undecided
+        else:
+            k = 0
+            while b + k < d.n and d.lines[b + k].strip(" \t") == "":
+                k += 1
+            if k != below_n:
+                bad = True
+        if bad:
+            must.append(rng)
+            silent.update(rng)
+        elif undecided:
+            silent.update(rng)
+    return must, silent
+
+
+def md032(d, cfg):
+    must, silent = [], set()
+    tops = _top_blocks(d)
+    for t in d.toks:
+        if t.type in ("bullet_list_open", "ordered_list_open") and t.map is not None:
+            a, b = t.map
+            rng = set(range(a + 1, min(b, d.n) + 1))
+            if t.level != 0:
+                silent.update(rng)
+                continue
+            silent.update(rng)  # where inside the list the report lands (first / last item line) is not stated
+            if a > 0 and d.lines[a - 1].strip(" \t") != "":
+                must.append({a, a + 1})  # at the list start, or (adjacent lists) at the line that precedes it
+                silent.add(a)
+            # what follows: the line after the list's last line
+            last = b
+            while last > a and d.lines[last - 1].strip(" \t") == "":
+                last -= 1
+            if last < d.n and last == b and d.lines[b].strip(" \t") != "" and not (b == d.n - 1 and d.lines[b] == ""):
+                must.append({k for k in rng if k >= a + 1} | {b + 1})
+                silent.add(b + 1)
+    return must, silent
+
+
 ORACLES = {
     "md047": (md047, [{}]),
     "md010": (md010, [{}, {"code_blocks": False}]),
@@ -447,6 +584,10 @@ ORACLES = {
     "md031": (md031, [{}]),
     "md042": (md042, [{}]),
     "md045": (md045, [{}]),
+    "md003": (md003, [{}, {"style": "atx"}, {"style": "atx_closed"}, {"style": "setext"}]),
+    "md024": (md024, [{}]),
+    "md022": (md022, [{}, {"lines_above": 2}, {"lines_below": 0}]),
+    "md032": (md032, [{}]),
 }
 
 
